@@ -14,6 +14,11 @@
 //	decbl <style> <hex url> <hex params> <hex> <table>   NewStyledString on that exact string with a default style that carries
 //	                                          the given hyperlink; impl = the cells with their hyperlinks (lcell format)
 //
+//	agr <body>                                (round 4) the three real consumers on ESC [ body m a from the zero style;
+//	                                          impl = style of ParseStyledString's cell | style of NewStyledString's cell | emulator pen
+//	rdf <caps> <table> <cell>*                (round 4) the SGR and text bytes of a real rendered frame of the cells fed to the real
+//	                                          ParseStyledString and NewStyledString; impl = cells | cells; table = cluster table of that string
+//
 // cell = hex(grapheme):fg,bg,ul,ulstyle,attr   tok = S<params text> | T<hex(grapheme)>
 // caps bit 0 = rgb, bit 1 = styledUnderlines, bit 2 = VAXIS_FORCE_LEGACY_SGR applied.
 // Producer output is tokenised by the real ansi parser; consumer input goes through real strings.
@@ -347,6 +352,74 @@ func (e *env) doDec(which string, dflt vaxis.Style, toks []string) (res string) 
 	return res
 }
 
+// doAgr: the three real consumers on the same parameter text, from the zero style.
+func (e *env) doAgr(body string) string {
+	zero := vaxis.Style{}
+	one := func(which string) string {
+		r := e.doDec(which, zero, []string{"S" + body, "T61"})
+		if which != "emu" && strings.HasPrefix(r, "61:") && !strings.Contains(r, " ") {
+			return r[3:]
+		}
+		return r
+	}
+	return one("cells") + "|" + one("ss") + "|" + one("emu")
+}
+
+// renderSgrText renders one frame of the cells in the session with the given capabilities and returns the SGR sequences and
+// the text of what was written (see sgrAndText).
+func (e *env) renderSgrText(caps int, cells []vaxis.Cell) (string, error) {
+	vx, fc, err := e.session(caps)
+	if err != nil {
+		return "", err
+	}
+	win := vx.Window()
+	for i, c := range cells {
+		c.Width = 1
+		win.SetCell(i, 0, c)
+	}
+	vx.Render()
+	s := sgrAndText(string(fc.Take()))
+	win.Clear()
+	vx.Render()
+	fc.Take()
+	return s, nil
+}
+
+// doRdf: a real rendered frame read back by the two real string parsers.
+func (e *env) doRdf(caps int, cells []vaxis.Cell) (res string, str string) {
+	if err := e.setLegacy(caps&4 != 0); err != nil {
+		return "error:" + err.Error(), ""
+	}
+	defer e.setLegacy(false)
+	panicked, _ := hx.Guard(func() {
+		s, err := e.renderSgrText(caps, cells)
+		if err != nil {
+			res = "error:" + err.Error()
+			return
+		}
+		str = s
+		res = e.doDecB("cells", vaxis.Style{}, s) + "|" + e.doDecB("ss", vaxis.Style{}, s)
+	})
+	if panicked {
+		return "panic", str
+	}
+	return res, str
+}
+
+// rdf emits the case (the op line carries the cluster table of the string the real renderer wrote).
+func (e *env) rdf(caps int, cs []string) {
+	cells, ok := parseCells(cs)
+	if !ok || len(cells) == 0 || len(cells) > renderW {
+		return
+	}
+	res, str := e.doRdf(caps, cells)
+	if !utf8.ValidString(str) {
+		return
+	}
+	e.r.Emit(fmt.Sprintf("rdf %d %s %s", caps, clusterTable(str), strings.Join(cs, " ")), res)
+	e.r.Count("rdf")
+}
+
 func (e *env) doRt(which string, legacy bool, cells []vaxis.Cell) (res string) {
 	if err := e.setLegacy(legacy); err != nil {
 		return "error:" + err.Error()
@@ -640,6 +713,25 @@ func (e *env) exec(op []string) (string, bool) {
 			return "", false
 		}
 		return e.doDec(op[1], st, op[3:]), true
+	case "agr":
+		if len(op) != 2 {
+			return "", false
+		}
+		return e.doAgr(op[1]), true
+	case "rdf":
+		if len(op) < 4 {
+			return "", false
+		}
+		caps, err := strconv.Atoi(op[1])
+		if err != nil {
+			return "", false
+		}
+		cells, ok := parseCells(op[3:])
+		if !ok {
+			return "", false
+		}
+		res, _ := e.doRdf(caps, cells)
+		return res, true
 	case "rt", "rtq":
 		cells, ok := parseCells(op[2:])
 		if !ok {
@@ -927,6 +1019,7 @@ func (e *env) genRt(rng *gen.Rng) {
 				rc := rng.Intn(4) | (caps & 4)
 				e.emit(fmt.Sprintf("encb render %d %s", rc, strings.Join(cs, " ")))
 				r.Count("encb:render")
+				e.rdf(rc, cs)
 			}
 			if cells, ok := parseCells(cs); ok {
 				str := ""
@@ -1144,6 +1237,90 @@ func rangeSeq(rng *gen.Rng, legacy bool) string {
 	}
 }
 
+// agrVocab: canonical parameter texts (no empty or padded numerals: the model of NewStyledString in the agr op reads canonical numerals).
+var agrVocab = []string{"0", "1", "2", "3", "4", "5", "6", "7", "8", "9", "21", "22", "23", "24", "25", "27", "28", "29", "39", "49", "59",
+	"30", "37", "40", "47", "90", "97", "100", "107", "10", "50", "110", "255", "256", "300",
+	"4:0", "4:1", "4:3", "4:5", "4:6", "4:1:2", "4:9:1", "4:3:9",
+	"38:5:1", "38:5:255", "38:5:256", "48:5:17", "58:5:9", "38:2:1:2:3", "48:2:255:0:7", "58:2:9:9:9", "38:2:0:1:2:3", "58:2:0:1:2:3", "48:2:1:2:300",
+	"38;5;1", "48;5;200", "58;5;3", "38;2;1;2;3", "48;2;9;8;7", "58;2;4;5;6", "38;5;0", "48;2;0;0;0",
+	"38", "48", "58", "38;5", "38;2", "38;2;1", "38;2;1;2", "48;5", "58;2;1;2", "38;7;1", "38:5", "38:2", "38:2:1", "38:2:1:2", "38:3:1", "38:9:1:2:3", "38:9:8:1:2:3",
+	"38:5:1:1", "38:1:2:3:4:5:6", "58:5", "48:2:1:2", "38;5:1;7", "48;5;7:3", "38;2:0;1;2;3", "38;2;1:1;2;3"}
+
+func (e *env) agr(body string) {
+	op := "agr " + body
+	res, ok := e.exec(strings.Fields(op))
+	if !ok {
+		res = "bad-op"
+	}
+	e.r.Emit(op, res)
+	parts := strings.Split(res, "|")
+	if len(parts) == 3 && parts[0] == parts[1] && parts[1] == parts[2] {
+		e.r.Count("agr:all-three-equal")
+	} else if len(parts) == 3 && parts[0] == parts[2] {
+		e.r.Count("agr:NewStyledString-differs")
+	} else {
+		e.r.Count("agr:other")
+	}
+}
+
+// genAgr (round 4): the three real consumers side by side on arbitrary well-printed parameter lists; the driver's oracle demands
+// equal styles on the lists of Model.Sgr.agreeClass (Props.C18Agree.consumers_agree_on_class), never a panic anywhere.
+func (e *env) genAgr(rng *gen.Rng) {
+	for _, a := range agrVocab {
+		e.agr(a)
+		e.agr("1;" + a)
+		e.agr(a + ";1")
+		e.agr("1;3;4:3;" + a + ";7;9")
+	}
+	core := []string{"0", "1", "22", "4:3", "31", "38:5:7", "38;5;7", "48;2;1;2;3", "38", "38;5", "48;2;1", "58:2:0:1:2:3", "38:3:7", "4:3:9", "21", "6"}
+	for _, a := range core {
+		for _, b := range core {
+			e.agr(a + ";" + b)
+		}
+	}
+	n := 3000
+	if e.r.Thorough {
+		n = 120000
+	}
+	num := func() string {
+		switch rng.Intn(6) {
+		case 0:
+			return strconv.Itoa(rng.Intn(10))
+		case 1, 2:
+			return strconv.Itoa(rng.Intn(110))
+		case 3:
+			return strconv.Itoa(rng.Intn(300))
+		case 4:
+			return gen.Pick(rng, []string{"38", "48", "58", "2", "5", "4"})
+		default:
+			return strconv.Itoa(rng.Intn(100000))
+		}
+	}
+	for i := 0; i < n; i++ {
+		k := 1 + rng.Intn(7)
+		parts := make([]string, k)
+		for j := range parts {
+			switch rng.Intn(6) {
+			case 0, 1, 2:
+				parts[j] = gen.Pick(rng, agrVocab)
+			case 3:
+				m := 2 + rng.Intn(6)
+				sub := make([]string, m)
+				for x := range sub {
+					sub[x] = num()
+				}
+				if rng.Bool() {
+					sub[0] = gen.Pick(rng, []string{"38", "48", "58", "4"})
+				}
+				parts[j] = strings.Join(sub, ":")
+			default:
+				parts[j] = num()
+			}
+		}
+		e.agr(strings.Join(parts, ";"))
+	}
+}
+
 func (e *env) genDec(rng *gen.Rng) {
 	r := e.r
 	zero := vaxis.Style{}
@@ -1212,6 +1389,7 @@ func (e *env) genDec(rng *gen.Rng) {
 			}
 		}
 	}
+	e.genAgr(rng.Fork(77))
 	// producer-like streams: sequences from the producers' range, one parameter list each
 	np := 6000
 	if r.Thorough {
